@@ -185,10 +185,14 @@ def run_property(mod, pid, tier, seed, t0):
     refuted = [ob for ob in proof_obs if ob.status == 'refuted']
     undecided = [ob for ob in proof_obs if ob.status == 'undecided']
     # vacuity guards: every cover id must be satisfiable on at least one path
-    cover_ok = {}
+    cover_ok, cover_unknown = {}, {}
     for ob in covers:
         cover_ok[ob.oid] = cover_ok.get(ob.oid, False) or ob.status == 'covered'
-    vacuous = [k for k, v in cover_ok.items() if not v]
+        cover_unknown[ob.oid] = cover_unknown.get(ob.oid, False) or ob.status == 'undecided'
+    # vacuous = every tried path of the cover point is provably infeasible; a solver `unknown` (typical for
+    # string constraints over uninterpreted functions) is reported but is not a vacuity verdict
+    vacuous = [k for k, v in cover_ok.items() if not v and not cover_unknown.get(k)]
+    cover_undecided = [k for k, v in cover_ok.items() if not v and cover_unknown.get(k)]
     expected_min = getattr(mod, 'MIN_OBLIGATIONS', 1)
     problems = []
     if len(proof_obs) < expected_min:
@@ -311,7 +315,7 @@ def run_property(mod, pid, tier, seed, t0):
             'functions_under_contract': list(res.functions.values()),
             'paths_explored': res.paths,
             'by_status': by_status, 'by_backend': by_backend,
-            'cover_points': len(cover_ok), 'cover_points_vacuous': vacuous,
+            'cover_points': len(cover_ok), 'cover_points_vacuous': vacuous, 'cover_points_solver_unknown': cover_undecided,
             'generation_s': round(res.gen_s, 2), 'solver_wall_s': round(res.solve_s, 2),
             'solver_cpu_s': round(sum(ob.time_s for ob in res.obligations), 2),
             'undecided': [ob.oid for ob in undecided][:50],
